@@ -245,11 +245,14 @@ CHECKS["C18"] = dict(
           "closest_point_line is the exact minimum-norm point of the segment for ALL real inputs; (2) Jolt closest_point_triangle, non-degenerate "
           "branch: for ALL real inputs each of the 7 Voronoi arms returns the exact minimum-norm point and a subset whose hull contains it; "
           "(3) original solver, 1-4 points, ALL real inputs: weights >= 0, sum 1, reproduce the returned point from the selected points in the "
-          "returned order, v in the hull; (4) finite-domain theorems checked inside Coq (vm_compute + proven checker, slack 0): for EVERY "
+          "returned order, v in the hull; its backup procedure is OPTIMAL for all real inputs with 2 and 3 points (collinear / duplicate points "
+          "included; Johnson's theorem) and for 4 points on every non-degenerate tetrahedron when the origin is not strictly inside or all four "
+          "cofactors exceed EPSILON (partial: the excluded zone is exactly where C18_orig_backup_refuted shows the code wrong); Jolt tetrahedron: "
+          "exact when the origin is strictly inside beyond the band or strictly outside a non-degenerate tetrahedron (ray argument); (4) finite-domain theorems checked inside Coq (vm_compute + proven checker, slack 0): for EVERY "
           "configuration of 1-4 points with coordinates in {-1,0,1} (551 880 configurations) both models return the exact minimum-norm point, a "
           "carrier subset and (original) exact weights; (5) the property is FALSE for both models in exact arithmetic on small regular tetrahedra "
-          "around the origin (C18_orig_backup_refuted, C18_jolt_refuted = known findings C18-*-EPS-ABS). NOT proved for all reals: the Jolt "
-          "tetrahedron arm and global optimality of the original solver. Judged per generated input: every implementation result of both solvers "
+          "around the origin (C18_orig_backup_refuted, C18_jolt_refuted = known findings C18-*-EPS-ABS). NOT proved for all reals: degenerate / in-band tetrahedra of both solvers "
+          "(covered by (4) on the lattice and per generated input). Judged per generated input: every implementation result of both solvers "
           "is accepted / rejected by the Coq-proven integer certificate (c18_z / bary_z) evaluated by vm_compute on the exact values of the "
           "binary64 inputs / outputs; model = code is checked per input on all outputs (bit-exact on exact streams, stability-gated otherwise), "
           "model branch coverage 39/39 + 43/43 on every quick run."),
